@@ -11,18 +11,15 @@ SPEC_IMPORTS = 'From Coq Require Import ZArith List.'
 def class_directed_words(rng, tier):
     """for every concrete encoding class reached by random sampling, a few words of that class with their register
     fields forced to SP / LR / PC: the operand corners where UNPREDICTABLE guards and assertions live"""
-    import framework
-    nsample = 30000 if tier == 'quick' else 300000
+    import wordpool
     per_class = 2 if tier == 'quick' else 8
     res = []
-    for module, gen, kind in (('arm_instruction_set', stepgen.random_arm_word, 'arm'),
-                              ('thumb_instruction_set_encoding_32_bit', stepgen.random_thumb32, 't32')):
-        words = [gen(rng) for _ in range(nsample)]
-        codes = framework.run_impl([{'kind': 'classify', 'module': module, 'words': words}], 'c18_classify_' + kind)[0]
+    members = wordpool.pool(rng, per_class=per_class)          # members of (almost) every encoding class, rare ones included
+    for kind in ('arm', 't32'):
         byclass = {}
-        for w, c in zip(words, codes):
-            if c >= 0 and len(byclass.setdefault(c, [])) < per_class:
-                byclass[c].append(w)
+        for k, w, c in members:
+            if k == kind:
+                byclass.setdefault(c, []).append(w)
         for c, ws in sorted(byclass.items()):
             for w in ws:
                 if kind == 'arm' and (w >> 28) != 0xF:
@@ -98,6 +95,6 @@ def tie_cases(rng, tier):
 
 
 def units():
-    return [Unit('step_tie', [], [], [], tie_cases, IMPORTS, SPEC_IMPORTS),
+    return [Unit('step_tie', [], [], ['*'], tie_cases, IMPORTS, SPEC_IMPORTS),
             Unit('totality', ['C18_decode_total', 'C18_arm_total', 'C18_thumb32_total'], ['Proofs/DecodeTotal.v'], [], cases,
                  IMPORTS, SPEC_IMPORTS)]
